@@ -105,3 +105,15 @@ func (vc *VC) anchorAsserts(fr *frame, st *State, label string, extra map[string
 		vc.assume(st, g)
 	}
 }
+
+// markMust records that an anchored instruction named by a must@ clause has been executed on this path.
+func (vc *VC) markMust(fr *frame, st *State, label string) {
+	if fr.contract == nil || fr.fn != vc.Fn {
+		return
+	}
+	for _, cl := range fr.contract.Musts {
+		if cl.Label == label {
+			st.heap["ghost$must:"+label] = vc.P.True()
+		}
+	}
+}
